@@ -298,7 +298,13 @@ pub fn run(ctx: &Ctx, rep: &Report) -> Meta {
     }
 }
 
-pub fn replay(_ctx: &Ctx, rep: &Report, check_name: &str, case: &Value) -> CheckResult {
+pub fn replay(ctx: &Ctx, rep: &Report, check_name: &str, case: &Value) -> CheckResult {
+    // contention checks are replayed as a whole (the schedule is part of the case)
+    if check_name == "cold-start-contention" {
+        let before = rep.violation_count();
+        cold_start(ctx, rep);
+        return if rep.violation_count() > before { Err(Fail { check: check_name.into(), site: "reproduced-under-contention".into(), msg: "the contention check fails again".into(), case: case.clone() }) } else { Ok(()) };
+    }
     let c: Case = serde_json::from_value(case.clone()).map_err(|e| Fail {
         check: check_name.into(),
         site: "replay-parse".into(),
